@@ -423,7 +423,15 @@ fn gen_ask(k: u32, udp: bool) -> Ask {
     } else {
         (n, s)
     };
-    let m = if !udp && n < 300 && sim::chance("ask.multi", 1, 5) { 2 + sim::draw("ask.m", 12) as u32 } else { 1 };
+    // (Over UDP too, now and then: two or three datagrams for one request.)
+    let m = if !udp && n < 300 && sim::chance("ask.multi", 1, 5) {
+        2 + sim::draw("ask.m", 12) as u32
+    } else if udp && sim::chance("ask.multi_udp", 1, 12) {
+        sim::stat("probe.several_responses_to_one_datagram");
+        2 + sim::draw("ask.m_udp", 2) as u32
+    } else {
+        1
+    };
     let d = match sim::draw("ask.delay", 6) {
         0..=3 => 0,
         4 => sim::draw("ask.delay_ms", 30) as u32,
